@@ -257,47 +257,6 @@ void h_rs_calloc(void)
 	VCOVER(overflow, "h_rs_calloc covers a multiplication overflow");
 }
 
-/* checkpoint take under INV_MM: the buffer of full_ckpt_size bytes is never exceeded (C11 anchor), then restore */
-void h_ckpt_take_restore(void)
-{
-	MM_SETUP();
-	VIN(array_count_t, ref);
-	VIN_ARR(uint8_t, junk_lon, NLON);
-	VIN_ARR(unsigned char, junk_mem, B_TOTAL);
-	VIN(bool, grow);
-	VASSUME(b_wf_lon(junk_lon)); /* whatever the undone events did, they left a well-formed tree */
-	VASSUME(n_ar <= 1);          /* one arena at checkpoint time; a second one may be created afterwards */
-	bool g_live = GHOST_LIVE();
-	uint8_t g_lon = ga < n_ar ? arena_pool[ga].longest[gn] : 0;
-	unsigned char g_byte = ga < n_ar ? arena_pool[ga].base_mem[gx] : 0;
-	bool x_live = g_live && b_off(gn) <= gx && gx < b_off(gn) + (1U << b_lev(gn));
-	uint_fast32_t size0 = S->full_ckpt_size;
-	VASSUME(size0 <= sizeof(ck_pool[0]));
-	model_allocator_checkpoint_take(S, ref);
-	VASSERT(array_count(S->logs) == 1 && S->logs.items[0].ref_i == ref && S->logs.items[0].c->ckpt_size == size0, "C05.take the log gains exactly (ref_i, checkpoint)");
-	/* undone events: clobber one arena, possibly grow to a further arena */
-	if(ga < n_ar) {
-		for(uint32_t i = 0; i < NLON; i++)
-			arena_pool[ga].longest[i] = junk_lon[i];
-		for(uint32_t i = 0; i < B_TOTAL; i++)
-			arena_pool[ga].base_mem[i] = junk_mem[i];
-	}
-	if(grow && n_ar < NA) {
-		void *np = rs_malloc(1);
-		VASSUME(np != NULL);
-	}
-	array_count_t r = model_allocator_checkpoint_restore(S, ref);
-	VASSERT(r == ref && array_count(S->logs) == 1, "C05.restore returns the reference of the checkpoint it used");
-	VASSERT(ga >= n_ar || arena_pool[ga].longest[gn] == g_lon, "C05.restore the set of live blocks is restored exactly");
-	VASSERT(!x_live || arena_pool[ga].base_mem[gx] == g_byte, "C05.restore every byte of every live block is restored");
-	VASSERT(INV_MM(S), "C05.restore the size accounting is exact again (an arena added after the checkpoint is re-initialised and accounted for)");
-	for(unsigned a = 0; a < NA + 1; a++)
-		if(a >= n_ar && a < array_count(S->buddies))
-			VASSERT(array_get_at(S->buddies, a)->longest[0] == B_TOTAL_EXP, "C05.restore allocations made in arenas created after the checkpoint are gone");
-	VCANARY("h_ckpt_take_restore reachable");
-	VCOVER(grow && n_ar == 1 && x_live, "h_ckpt_take_restore covers growth to a second arena after the checkpoint");
-}
-
 /* model_allocator_checkpoint_restore: which checkpoint is chosen (log scan), what is released, what the table becomes.
  * No arena here (the per-arena part is h_ckpt_take_restore): logs of <= NLOGS entries with arbitrary references. */
 void h_restore_scan(void)
@@ -347,71 +306,3 @@ void h_restore_scan(void)
 	VCOVER(n_logs == 3 && sel == 1 && in_ref[1] < target, "h_restore_scan covers a rollback point strictly between two checkpoints");
 }
 
-#ifdef C5_ALLOC
-/* checkpoint sizing (C11 anchor): one arena whose live blocks sum to C5_ALLOC bytes; the buffer handed out by the
- * allocator stub has exactly full_ckpt_size bytes, so writing one byte too many is a bounds violation */
-void h_ckpt_take_exact(void)
-{
-	MM_SETUP();
-	VIN(array_count_t, ref);
-	VASSUME(n_ar == 1 && b_alloc_bytes(arena_pool[0].longest) == C5_ALLOC);
-	VASSERT(S->full_ckpt_size == sizeof(ck_exact), "C11.take the accounted size is header + per-arena header + live bytes + end marker");
-	uint8_t g_lon = arena_pool[0].longest[gn];
-	model_allocator_checkpoint_take(S, ref);
-	struct mm_checkpoint *c = S->logs.items[0].c;
-	VASSERT((void *)c == (void *)ck_exact, "C11.take the checkpoint buffer is requested with exactly the accounted size");
-	VASSERT(array_count(S->logs) == 1 && S->logs.items[0].ref_i == ref && c->ckpt_size == sizeof(ck_exact), "C05.take the log gains exactly (ref_i, checkpoint)");
-	struct buddy_checkpoint *bc = (struct buddy_checkpoint *)c->chkps;
-	VASSERT(bc->orig == &arena_pool[0] && bc->longest[gn] == g_lon, "C05.take the record of the arena carries its identity and its tree");
-	const struct buddy_state *end_marker;
-	memcpy(&end_marker, ck_exact + sizeof(ck_exact) - sizeof(end_marker), sizeof(end_marker));
-	VASSERT(end_marker == NULL, "C05.take the end marker (orig == NULL) is the last word of the buffer");
-	VASSERT(arena_pool[0].longest[gn] == g_lon, "C05.take the arena is not modified by a checkpoint");
-	VCANARY("h_ckpt_take_exact reachable");
-}
-#endif
-
-/* restore across arenas: the checkpoint holds one arena; a second arena may have been created after it */
-void h_restore_multi(void)
-{
-	MM_SETUP();
-	VIN_ARR(uint8_t, ck_lon, NLON);
-	VIN_ARR(unsigned char, ck_mem, B_TOTAL);
-	VIN(bool, grown);
-	VASSUME(n_ar == 1 && b_wf_lon(ck_lon));
-	/* a checkpoint of arena 0 taken earlier (shape as checkpoint_full_take writes it, see C05.ckpt_take) */
-	struct mm_checkpoint *c = (struct mm_checkpoint *)ck_pool[0];
-	ck_used = 1;
-	uint32_t alloc = b_alloc_bytes(ck_lon);
-	c->ckpt_size = MM_BASE + CK_HDR + alloc;
-	struct buddy_checkpoint *bc = (struct buddy_checkpoint *)c->chkps;
-	bc->orig = &arena_pool[0];
-	for(uint32_t i = 0; i < NLON; i++)
-		bc->longest[i] = ck_lon[i];
-	for(uint32_t i = 0; i < B_TOTAL; i++)
-		if(i < alloc)
-			bc->base_mem[i] = ck_mem[i];
-	struct buddy_checkpoint *endm = (struct buddy_checkpoint *)((char *)bc + CK_HDR + alloc);
-	endm->orig = NULL;
-	log_store[0].ref_i = 0;
-	log_store[0].c = c;
-	S->logs.count = 1;
-	if(grown) { /* an arena created by an undone event, with whatever it allocated */
-		arena_ptr[1] = &arena_pool[1];
-		S->buddies.count = 2;
-		arena_used = 2;
-		for(uint32_t i = 0; i < NLON; i++)
-			arena_pool[1].longest[i] = in_lon[NLON + i];
-		VASSUME(b_wf(&arena_pool[1]));
-	}
-	array_count_t r = model_allocator_checkpoint_restore(S, 7);
-	VASSERT(r == 0, "C05.restore_multi the only checkpoint is used");
-	VASSERT(arena_pool[0].longest[gn] == ck_lon[gn], "C05.restore_multi the checkpointed arena gets its own record back (set of live blocks)");
-	if(b_live(ck_lon, gn) && b_off(gn) <= gx && gx < b_off(gn) + (1U << b_lev(gn)))
-		VASSERT(arena_pool[0].base_mem[gx] == ck_mem[b_ckpt_pos(ck_lon, gn, gx)], "C05.restore_multi every byte of every live block is restored");
-	if(grown)
-		VASSERT(arena_pool[1].longest[gn] == b_lev(gn), "C05.restore_multi allocations made in an arena created after the checkpoint are gone (arena re-initialised)");
-	VASSERT(INV_MM(S), "C05.restore_multi the size accounting is exact again, including the arena added after the checkpoint (else the NEXT checkpoint overflows)");
-	VCANARY("h_restore_multi reachable");
-	VCOVER(grown, "h_restore_multi covers growth to a second arena after the checkpoint");
-}
